@@ -104,6 +104,7 @@ type FuncContract struct {
 	Params     []Param
 	Results    []Param
 	Uses       []string // lemmas assumed while verifying this function
+	TrustFrame bool     // the assigns clause is assumed at call sites but not checked against the body (listed as trusted)
 	RecvName   string
 	PkgInit    bool
 	Reveals    []string // opaque spec functions whose definition this proof needs
@@ -598,7 +599,7 @@ var clauseKW = map[string]bool{
 	"func": true, "spec": true, "uf": true, "ghost": true, "axiom": true, "lemma": true, "pred": true,
 	"requires": true, "ensures": true, "assigns": true, "loop": true, "safety": true,
 	"props": true, "trusted": true, "inline": true, "pure": true, "maypanic": true, "nobody": true,
-	"extern": true, "opaque": true, "uses": true, "allocbound": true, "forbids": true, "decreases": true, "invariant": true, "defines": true, "assumes": true, "proves": true, "wraparound": true, "reveals": true,
+	"extern": true, "opaque": true, "uses": true, "allocbound": true, "forbids": true, "decreases": true, "invariant": true, "defines": true, "assumes": true, "proves": true, "wraparound": true, "reveals": true, "trustedframe": true,
 }
 
 type rawClause struct {
@@ -718,6 +719,8 @@ func ParseContractFile(path string) (*ContractFile, error) {
 			switch rc.kw {
 			case "props":
 				cur.Props = append(cur.Props, strings.Fields(rc.text)...)
+			case "trustedframe":
+				cur.TrustFrame = true
 			case "uses":
 				cur.Uses = append(cur.Uses, strings.Fields(rc.text)...)
 			case "reveals":
